@@ -35,7 +35,7 @@ ASSUMPTIONS = ['quiescence (no runnable greenlet, no timer) is the moment at '
                'which "forgotten" is judged']
 CELL_BUDGET_S = {'quick': 240, 'thorough': 2400}
 SAMPLE_P = 0.01
-MAX_WITNESSES = 6
+MAX_WITNESSES = 10
 
 
 def cells(tier):
